@@ -69,7 +69,8 @@ def kernel_of(name):
     import functools
     from contracts.c02_operators import find_closure, closure_vars
     f = formulas.get_functions()[name]
-    se = find_closure(f['function'] if isinstance(f, dict) else f, 'safe_eval')
+    from contracts.c02_operators import ufunc_wrapper_of, element_evaluator
+    se = element_evaluator(ufunc_wrapper_of(f['function'] if isinstance(f, dict) else f))
     k = closure_vars(se)['func']
     return k
 
